@@ -271,6 +271,24 @@ func SetNode(node string) {
 
 func itoa(n int) string { return fmt.Sprintf("%d", n) }
 
+// EndStarvation switches the scheduler's starvation mode off for the rest of
+// the run and releases every frozen goroutine. It is the "faults stop" point of
+// oracles that allow an agent a bounded time to do something: such an allowance
+// only means anything for an agent that gets the CPU (in starvation mode every
+// preemption may keep a goroutine off it for up to two simulated seconds, so an
+// agent working through a large message can fall behind without bound).
+func EndStarvation() {
+	s := active.Load()
+	if s == nil {
+		return
+	}
+	s.mu.Lock()
+	s.FreezeOneIn = 0
+	s.frozen = nil
+	s.mu.Unlock()
+	s.kickDriver()
+}
+
 // Yield is a scheduling point of the running goroutine.
 func Yield() {
 	s := active.Load()
